@@ -166,7 +166,8 @@ fn build_add(lhs: &AstNode, rhs: &AstNode) -> Result<Evaluator> {
       }
       Value::YearsAndMonthsDuration(lh) => {
         if let Value::YearsAndMonthsDuration(rh) = rhv {
-          match lh.as_months().checked_add(rh.as_months()) {
+          // i64::MIN months has no negation and no literal: the range of durations is symmetric
+          match lh.as_months().checked_add(rh.as_months()).filter(|months| *months != i64::MIN) {
             Some(months) => Value::YearsAndMonthsDuration(FeelYearsAndMonthsDuration::new_m(months)),
             None => value_null!("addition err 5"),
           }
